@@ -73,6 +73,21 @@ func (self *Interpreter) callFunc(span errors.Span, val value.Value, args []ast.
 	case value.ClosureValueKind:
 		closure := val.(value.ValueClosure)
 
+		// The arguments belong to the caller: evaluate them before the closure's scopes are switched in.
+		// Each parameter gets a cell of its own (arguments are passed like in calls of named functions).
+		argNames := make([]string, 0, len(args))
+		argValues := make([]*value.Value, 0, len(args))
+		for _, arg := range args {
+			argVal, i := self.expression(arg.Expression)
+			if i != nil {
+				return nil, i
+			}
+
+			argCell := *argVal
+			argNames = append(argNames, arg.Name)
+			argValues = append(argValues, &argCell)
+		}
+
 		// push a scope into the closure
 		closure.Scopes = append(closure.Scopes, make(map[string]*value.Value))
 		self.callStackSize++
@@ -95,13 +110,8 @@ func (self *Interpreter) callFunc(span errors.Span, val value.Value, args []ast.
 			self.currentModule.scopes = scopesPrev
 		}()
 
-		for _, arg := range args {
-			argVal, i := self.expression(arg.Expression)
-			if i != nil {
-				return nil, i
-			}
-
-			closure.Scopes[len(closure.Scopes)-1][arg.Name] = argVal
+		for idx, name := range argNames {
+			closure.Scopes[len(closure.Scopes)-1][name] = argValues[idx]
 		}
 
 		val, i := self.block(closure.Block, false)
